@@ -156,3 +156,19 @@ package b6
 //@ func FeaturesByID.FindFeatureByID
 //@   trusted
 //@   function
+
+// RemoveTags, for lists and key sets of every length: afterwards no tag carries one of the
+// given keys, the list did not grow, and it still lives in the same array (the kept tags
+// are compacted in place). That every other tag is kept, in order, is covered by the
+// bounded lemmas only.
+//@ func (*Tags).RemoveTags
+//@   requires t != nil
+//@   modifies *t
+//@   loop 1 modifies kept
+//@   loop 1 invariant rangeindex >= -1 && rangeindex + 1 <= old(len(*t)) && len(*t) == old(len(*t)) && base(*t) == old(base(*t))
+//@   loop 1 invariant base(kept) == old(base(*t)) && off(kept) == old(off(*t)) && off(*t) == old(off(*t)) && len(kept) <= rangeindex + 1 && cap(kept) == old(cap(*t))
+//@   loop 1 invariant forall(j, 0, len(kept), forall(k, 0, len(keys), kept[j].Key != keys[k]))
+//@   loop 1 invariant forall(j, rangeindex + 1, old(len(*t)), (*t)[j] == old((*t)[j]))
+//@   loop 2 invariant rangeindex >= -1 && implies(!remove, forall(k, 0, rangeindex + 1, tag.Key != keys[k]))
+//@   ensures len(*t) <= old(len(*t)) && base(*t) == old(base(*t))
+//@   ensures forall(j, 0, len(*t), forall(k, 0, len(keys), (*t)[j].Key != keys[k]))
